@@ -483,7 +483,8 @@ impl<'a> Compiler<'a> {
 
         let locals = &mut self.locals[function_id - 1];
         // try to find in the locals of the parent function
-        for (i, local) in locals.iter_mut().enumerate() {
+        // innermost declaration first, like the lookup of direct accesses in `resolve_var`
+        for (i, local) in locals.iter_mut().enumerate().rev() {
             if local.name == name {
                 local.captured = true;
                 return self
